@@ -633,6 +633,14 @@ def fold_bitset_parser(ctx, key, sty):
             for x in toks[:n]:
                 exp |= bits.get(expected_card(x), 0)
             nb += 0 if got == exp else 1
+    # the text is read token by token only (an early answer that looks at the whole text, e.g. its length, is not a
+    # function of the tokens)
+    kfi_, _st = ctx.method("u32", "from_index", PC)
+    so_ = ctx.summ(key, [("v", atom("text", "str"))], sty, opaque={kfi_}) if False else None
+    misuse = text_misuse([ret], "fn:never")
+    misuse = [m_ for m_ in misuse if not m_.startswith("a token flows")]     # (the card parser is inlined here)
+    if misuse:
+        rep.ob("C12.bitset-parser" if rep.prop == "C12" else "C15.from_text", "reads", False, "BinaryCard::from_index reads the text other than token by token (%s)" % "; ".join(misuse[:3]), pdb.where(key))
     return ex, NTOK, nb
 
 
